@@ -1040,6 +1040,10 @@ namespace bluetoe {
 
             bool operator()( std::uint16_t, const details::attribute& attr ) const
             {
+                // only primary services are discovered by «Find By Type Value» for the type «Primary Service»
+                if ( attr.uuid != bits( details::gatt_uuids::primary_service ) )
+                    return false;
+
                 auto read = details::attribute_access_arguments::compare_value( begin_, end_, &server_ );
                 return attr.access( read, 1 ) == details::attribute_access_result::value_equal;
             }
@@ -1282,9 +1286,11 @@ namespace bluetoe {
             template< typename Service >
             void each()
             {
+                // secondary services are not part of the «Primary Service» group type
                 if ( !stoped_
                     && ( starting_index_ != details::invalid_attribute_index && starting_index_ <= index_ )
-                    && ( index_ <= ending_index_ || ending_index_ == details::invalid_attribute_index ) )
+                    && ( index_ <= ending_index_ || ending_index_ == details::invalid_attribute_index )
+                    && Server::attribute_at( index_ ).uuid == bits( details::gatt_uuids::primary_service ) )
                 {
                     if ( first_ )
                     {
